@@ -11,6 +11,7 @@ import ChalkModel.Compat
 import ChalkModel.AutoTraits
 import ChalkModel.Enumeration
 import ChalkModel.AnswerStream
+import ChalkModel.WfCheck
 
 namespace Chalk.Sem
 open Chalk Chalk.Sexp
@@ -175,6 +176,15 @@ def opsSem : Sexp → Option Sexp
               .list [.atom "rejected", .atom "slg_coinductive_variant_cycle", .list (sNat i :: σ.map tmToSexp)]
             else v.toSexp
         | _ => v.toSexp)
+  | .list [.atom "judge-wf", p, .list imps, sig, depth, maxc, fuel] => do
+      let P ← programOfSexp? p
+      let imps ← imps.mapM fun
+        | .list [n, prem, concl] => do some (⟨← n.nat?, ← atomsOfSexp? prem, ← atomOfSexp? concl⟩ : Implication)
+        | _ => none
+      let pool := termsUpTo (← sigOfSexp? sig) (← depth.nat?)
+      some (match judgeWf P (← fuel.nat?) pool (← maxc.nat?) imps 0 0 0 with
+        | .accepted c u => .list [.atom "accepted", .atom "wf-instances", sNat c, sNat u]
+        | .rejected i θ => .list [.atom "rejected", .atom "accepted_program_violates_implied_bound", .list (sNat i :: θ.map tmToSexp)])
   | .list [.atom "compatible", a, b] =>
       let (x, y) := (answerOfSexp a, answerOfSexp b)
       some (if compatible x y then .list [.atom "accepted", .atom "compatible"]
